@@ -332,7 +332,11 @@ def read_jsonl(path):
         for line in f:
             line = line.strip()
             if line:
-                recs.append(json.loads(line))
+                try:
+                    recs.append(json.loads(line))
+                except ValueError:
+                    # a harness that was killed leaves a cut-off last line; its non-zero exit status is what gets reported
+                    recs.append({"t": "truncated_line", "text": line[:200]})
     return recs
 
 
